@@ -118,6 +118,11 @@ where
     fn compute_matrices(polynomial: &P, param: &Self::LinCodePCParams) -> (Matrix<F>, Matrix<F>) {
         let mut coeffs = Self::poly_to_vec(polynomial);
 
+        // The zero polynomial may have an empty coefficient vector: commit to it as the constant 0
+        if coeffs.is_empty() {
+            coeffs.push(F::zero());
+        }
+
         // 1. Computing the matrix dimensions.
         let (n_rows, n_cols) = param.compute_dimensions(coeffs.len());
 
